@@ -177,3 +177,34 @@ def subgraphSpec (a b : Dump n) : Bool :=
       (a.succ i).all fun s => b.pairs.any fun e => b.space e.1 == a.space i && b.space e.2 == a.space s)
 
 end Balm.Impl
+
+namespace Balm.Impl
+
+open Balm
+
+variable {n : Nat}
+
+/-- the successor clause of the *weak* invariant (the one `Skip.attach_weak` / `skip_completion` are about): a stub has
+    no successors; the successors of an expanded node - however it got them: stable motifs, source-variable valuations,
+    skip edges, an attached sub-diagram - are trap spaces strictly inside it that together contain every minimal trap
+    space inside it -/
+def chkKindWeak (mins : List (Space n)) (d : Dump n) (i : Nat) : Option String :=
+  let nd := d.node i
+  let p := nd.space
+  let outs := d.outs i
+  if !nd.expanded then check outs.isEmpty s!"unexpanded node {i} has successors"
+  else
+    firstSome
+      [ check (outs.all fun e => (d.space e.2.1).leB p && d.space e.2.1 != p)
+          s!"node {i} has a successor that is not strictly inside it",
+        check ((mins.filter fun m => m.leB p).all fun m => m == p || outs.any fun e => m.leB (d.space e.2.1))
+          s!"node {i}: a minimal trap space inside it lies in none of its successors" ]
+
+/-- weak invariant of a diagram built with shortcuts (source-variable valuations, skip nodes, attached sub-diagrams) -/
+def judgeWeak (c : Ctx n) (d : Dump n) : Option String :=
+  let mins := minTrapsIn c.N c.root
+  firstSome ([chkRoot c d, chkDistinct d] ++
+    (List.range d.nodes.length).map fun i =>
+      firstSome [chkTrap c d i, chkPerc c d i, chkTargets d i, chkKindWeak mins d i, chkDepth d true i])
+
+end Balm.Impl
